@@ -21,7 +21,8 @@ var vNamePairs = [][2]string{{"XY", "X"}, {"X", "XY"}, {"OPT", "ION"}, {"FILES",
 // whatever the names look like.
 func H_defspec_names() {
 	pair := vNamePairs[vParamInt("pair")]
-	withOpt := vParamInt("withopt") == 1
+	withOpt := vParamInt("withopt") >= 1
+	hideValue := vParamInt("withopt") == 2 // the only option is declared with HideValue (its default is not shown in the help)
 	argv := vArgvFor(vParamString("profile"))
 	vNoHelp(argv)
 	explicit := pair[0] + " " + pair[1]
@@ -46,7 +47,7 @@ func H_defspec_names() {
 		app.Spec = spec
 		var a *bool
 		if withOpt {
-			a = app.Bool(BoolOpt{Name: "a aa"})
+			a = app.Bool(BoolOpt{Name: "a aa", HideValue: hideValue})
 		}
 		x := app.Strings(StringsArg{Name: pair[0]})
 		y := app.Strings(StringsArg{Name: pair[1]})
